@@ -30,6 +30,8 @@ pub enum POp {
   Close,
   /// async handles: start a send, poll it once, yield, then drop the future if still pending
   SendCancel,
+  /// k blocking sends in a row (long runs: chunk / slab recycling under the scheduler)
+  SendBurst(u8),
 }
 
 #[derive(Clone, Debug, Serialize, Deserialize, PartialEq)]
@@ -47,6 +49,8 @@ pub enum COp {
   Close,
   /// async handles: start a receive, poll it once, yield, then drop the future if still pending
   RecvCancel,
+  /// up to k blocking receives in a row (stops at Disconnected)
+  RecvBurst(u8),
 }
 
 #[derive(Clone, Debug, Serialize, Deserialize)]
@@ -121,6 +125,7 @@ fn pop_strategy(f: Flavour) -> BoxedStrategy<POp> {
     (1, Just(POp::Convert).boxed()),
     (1, Just(POp::Close).boxed()),
     (2, Just(POp::SendCancel).boxed()),
+    (1, (8u8..40).prop_map(POp::SendBurst).boxed()),
   ];
   proptest::strategy::Union::new_weighted(opts.into_iter().filter(|(w, _)| *w > 0).collect()).boxed()
 }
@@ -140,6 +145,7 @@ fn cop_strategy(f: Flavour) -> BoxedStrategy<COp> {
     (1, Just(COp::Convert).boxed()),
     (1, Just(COp::Close).boxed()),
     (2, Just(COp::RecvCancel).boxed()),
+    (1, (8u8..40).prop_map(COp::RecvBurst).boxed()),
   ];
   proptest::strategy::Union::new_weighted(opts.into_iter().filter(|(w, _)| *w > 0).collect()).boxed()
 }
@@ -213,6 +219,7 @@ fn normalise_balanced(s: &mut Scenario) {
         POp::TrySend | POp::TrySendSpin(_) | POp::SendCancel | POp::Close => POp::Send,
         POp::TrySendBatch(n) => POp::SendBatch(n),
         POp::TrySendBatchMut(n) => POp::SendBatchMut(n),
+        POp::SendBurst(k) => POp::SendBurst(k.min(12)),
         o => o,
       };
     }
@@ -221,7 +228,7 @@ fn normalise_balanced(s: &mut Scenario) {
     *drain = false;
     for op in c.iter_mut() {
       *op = match op.clone() {
-        COp::TryRecv | COp::Close | COp::RecvCancel => COp::Recv,
+        COp::TryRecv | COp::Close | COp::RecvCancel | COp::RecvBurst(_) => COp::Recv,
         COp::TryRecvBatch(n) => COp::RecvBatch(n.max(1)),
         COp::RecvBatch(n) => COp::RecvBatch(n.max(1)),
         COp::RecvBatchMut(n) => COp::RecvBatchMut(n.max(1)),
@@ -237,6 +244,7 @@ fn normalise_balanced(s: &mut Scenario) {
 fn balanced_total(s: &Scenario) -> usize {
   s.producers.iter().flatten().map(|o| match o {
     POp::Send => 1,
+    POp::SendBurst(k) => *k as usize,
     POp::SendBatch(n) | POp::SendBatchMut(n) => if s.flavour.has_batch() { *n as usize } else { 0 },
     _ => 0,
   }).sum()
@@ -494,12 +502,17 @@ fn producer_thread(env: Arc<Env>, p: usize, mut h: Box<dyn Tx>, ops: Vec<POp>) -
       })
       .collect()
   };
+  let ops: Vec<POp> = ops.into_iter().flat_map(|o| match o {
+    POp::SendBurst(k) => vec![POp::Send; k as usize],
+    o => vec![o],
+  }).collect();
   for op in ops {
     if env.failed() {
       break;
     }
     let caps = h.caps();
     match op {
+      POp::SendBurst(_) => {}
       POp::Yield => shuttle::thread::yield_now(),
       POp::Convert => {
         h = match h.convert() {
@@ -803,7 +816,7 @@ fn consumer_thread(env: Arc<Env>, c: usize, mut h: Box<dyn Rx>, ops: Vec<COp>, d
           continue;
         }
         COp::Close => continue,
-        COp::Recv => (0, 1),
+        COp::Recv | COp::RecvBurst(_) => (0, 1),
         COp::TryRecv => (1, 1),
         COp::RecvTimeout(z) => (if z { 2 } else { 3 }, 1),
         COp::Next => (4, 1),
@@ -910,6 +923,13 @@ fn consumer_thread(env: Arc<Env>, c: usize, mut h: Box<dyn Rx>, ops: Vec<COp>, d
       }
       COp::Recv => {
         do_recv(&h, 0, 0, closed);
+      }
+      COp::RecvBurst(k) => {
+        for _ in 0..k {
+          if do_recv(&h, 0, 0, closed) || env.failed() || oneshot {
+            break;
+          }
+        }
       }
       COp::TryRecv => {
         do_recv(&h, 1, 0, closed);
